@@ -171,11 +171,11 @@ def gen_docs(c, n, dirs, alias, args, decor, label, focus=(), deep=False):
         f.write('CONSTANT MaxNodes = %d\nCONSTANT MaxDirs = %d\nCONSTANT MaxAlias = %d\nCONSTANT MaxArgs = %d\nCONSTANT MaxDecor = %d\n'
                 'CONSTANT Root = "Query"\nCONSTANT Focus = {%s}\nCONSTANT OnlyDeepReuse = %s\nINIT Init\nNEXT Next\nINVARIANT DepthOK\nINVARIANT Emit\n'
                 % (n, dirs, alias, args, decor, ", ".join('"%s"' % x for x in focus), "TRUE" if deep else "FALSE"))
-    g = vlib.run_tlc("gql/Gen_LimitDoc.tla", cfg, env={"SCHEMA": SCHEMA}, workers=8, timeout=1800, keep_lines=20, xmx="8g")
+    g = vlib.run_tlc("gql/Gen_LimitDoc.tla", cfg, env={"SCHEMA": SCHEMA}, workers=8 if not focus else 3, timeout=1800, keep_lines=20, xmx="8g")
     if g.invariant_violated:
         raise vlib.ToolError("design-level failure in Gen_LimitDoc.tla: " + str(g.invariant_violated))
-    c.add_tlc("G %s (MaxNodes=%d, decorations<=%d%s%s)" % (label, n, decor, ", fields " + "/".join(focus) if focus else "", ", only fragments spread at two depths" if deep else ""), g)
-    return sorted(set(t[1] for t in g.tagged("REPLAY")))
+    label = "G %s (MaxNodes=%d, decorations<=%d%s%s)" % (label, n, decor, ", fields " + "/".join(focus) if focus else "", ", only fragments spread at two depths" if deep else "")
+    return sorted(set(t[1] for t in g.tagged("REPLAY"))), label, g
 
 
 def spread(name):
@@ -315,11 +315,22 @@ def body(c):
     # ---- G: documents --------------------------------------------------------------------------------
     n = 4 if c.quick else 5
     ndec = 1 if c.quick else 2
-    decor = gen_docs(c, 4, 1, 1, 1, ndec, "decorated")       # <=4 nodes, <=ndec decorations (contains every smaller document)
-    plain5 = [] if c.quick else gen_docs(c, 5, 0, 0, 0, 0, "plain")   # undecorated, 5 nodes, incl. re-spread fragments
-    # one fragment spread at two different nesting depths (either order, also from inside another fragment): deeper bounds on field slices
-    deep = gen_docs(c, 5 if c.quick else 6, 0, 0, 0, 0, "deep-reuse", focus=["a", "me", "n", "node", "peer", "id"], deep=True)
-    deep += gen_docs(c, 6 if c.quick else 7, 0, 0, 0, 0, "deep-reuse-via-fragment", focus=["a", "me", "n"], deep=True)
+    # the generator runs are independent: run them side by side, account for them in a fixed order
+    from concurrent.futures import ThreadPoolExecutor
+    jobs = [lambda: gen_docs(c, 4, 1, 1, 1, ndec, "decorated"),       # <=4 nodes, <=ndec decorations (contains every smaller document)
+            # one fragment spread at two different nesting depths (either order, also from inside another fragment): deeper bounds on field slices
+            lambda: gen_docs(c, 5 if c.quick else 6, 0, 0, 0, 0, "deep-reuse", focus=["a", "me", "n", "node", "peer", "id"], deep=True),
+            lambda: gen_docs(c, 6 if c.quick else 7, 0, 0, 0, 0, "deep-reuse-via-fragment", focus=["a", "me", "n"], deep=True)]
+    if not c.quick:
+        jobs.append(lambda: gen_docs(c, 5, 0, 0, 0, 0, "plain"))      # undecorated, 5 nodes, incl. re-spread fragments
+    with ThreadPoolExecutor(len(jobs)) as ex:
+        futs = [ex.submit(j) for j in jobs]
+        results = [f.result() for f in futs]
+    for _docs, label, g in results:
+        c.add_tlc(label, g)
+    decor = results[0][0]
+    deep = results[1][0] + results[2][0]
+    plain5 = results[3][0] if not c.quick else []
     deep = sorted(set(deep))
     ndeep_total = len(deep)
     cap_deep = 350 if c.quick else 6000
